@@ -10,6 +10,9 @@ Executable item records for the segment-tree model (core Lean only).
   `modify` / `push` calls stay inside the element type) — the driver uses it to decide whether a history at a
   narrow / unsigned element type is inside the property's domain (no overflow) at all;
 * `prodItem` = `Combinator<U, V>`;
+* `KV` items: `Min` / `Max` / `MinAdd` / `MaxAdd` over an element type whose order ignores part of the value (a record ordered
+  by key, floats with `+0.0` / `-0.0`), `catSumItem` (`Sum` over a non-commutative `+`), `FloatFmt` (IEEE bit patterns in pure
+  integer arithmetic);
 * the two exotic lawful items of the correspondence harness (`harness/e_segtree/src/items.rs`):
   `affHash` (polynomial hash of the concatenation, affine modifiers — merge not commutative, modifiers do not
   commute) and `strCat` (string concatenation with "shift every letter" / "overwrite every letter").
@@ -334,6 +337,145 @@ def flipBItem : Item Flip Nat (Int × Int) where
   pa x a := if x.fl then flipObs a else a
   act m a := if m % 2 = 1 then flipObs a else a
 
+/-! ### Element types whose order ignores part of the value (`KV`): records ordered by key, floats with `+0.0` / `-0.0`
+
+`Min<T>` / `Max<T>` / `MinAdd<T>` / `MaxAdd<T>` only need `T: PartialOrd + Clone`; the order may ignore part of the value
+(a record compared by its key only; `+0.0 == -0.0`), and then *which* of two equal-comparing values `merge` returns is
+observable.  `KV` is such an element: `k` is what the order looks at, `t` is what it ignores.  The observable value of
+the items below is the **whole** element, so the specification (`Spec.ask` = left-to-right `merge` fold) fixes the tie
+rule: `Min::merge` / `Max::merge` return the LEFT operand only when it is strictly smaller / greater, i.e. the fold
+returns the LAST minimal (maximal) element of the range.
+
+* harness type `Rec { key, tag }` (`harness/e_segtree/src/keyed.rs`): `k = key`, `t = tag`, `+=` adds both fields;
+* `f64` / `f32` under `Min` / `Max` (no arithmetic): `k = FloatFmt.ordKey bits` (order-preserving integer image of a
+  non-NaN bit pattern, both zeros ↦ 0), `t = bits`;
+* `f64` / `f32` under the additive items: integer-valued floats far below `2^mbits`, where `+` is exact: `k` = the
+  integer, `t = 0` (`-0.0` is never produced by sums of such values, and is not fed in: `-0.0 + 0.0 = +0.0`, so the
+  additive items do not preserve the sign of a zero through a push of the identity tag). -/
+
+structure KV where
+  k : Int
+  t : Int
+  deriving Repr, DecidableEq
+
+/-- `Min<T>` on an element type ordered by `k` only; `d` = `Default` (`<T as MinMax>::MAX`) -/
+def minKItem (d : KV) : Item KV Unit KV where
+  merge l r := if l.k < r.k then l else r
+  -- the trait's default `update`: `*self = merge(left, right)`
+  update _ l r := if l.k < r.k then l else r
+  modify x _ := x
+  push p l r := (p, l, r)
+  dflt := d
+  op a b := if a.k < b.k then a else b
+  val x := x
+  pa _ a := a
+  act _ a := a
+
+/-- `Max<T>` on an element type ordered by `k` only; `d` = `Default` (`<T as MinMax>::MIN`) -/
+def maxKItem (d : KV) : Item KV Unit KV where
+  merge l r := if l.k > r.k then l else r
+  -- the trait's default `update`: `*self = merge(left, right)`
+  update _ l r := if l.k > r.k then l else r
+  modify x _ := x
+  push p l r := (p, l, r)
+  dflt := d
+  op a b := if a.k > b.k then a else b
+  val x := x
+  pa _ a := a
+  act _ a := a
+
+/-- `+=` of the element type: both fields (`Rec`); for the integer-valued floats `t` is 0 throughout -/
+def kvAdd (a b : KV) : KV := ⟨a.k + b.k, a.t + b.t⟩
+
+/-- `T::default()` -/
+def kvZero : KV := ⟨0, 0⟩
+
+/-- `MinAdd<T>` / `MaxAdd<T>` on such an element type: value and pending modifier -/
+structure KL where
+  v : KV
+  md : KV
+  deriving Repr, DecidableEq
+
+/-- `MinAdd<T>`; `merge` is `Self::new(if left.v < right.v { left.v } else { right.v })`, `Default` is `{ v: T::MAX, md: T::default() }` -/
+def minAddKItem (d : KV) : Item KL KV KV where
+  merge l r := ⟨if l.v.k < r.v.k then l.v else r.v, kvZero⟩
+  -- the trait's default `update`: `*self = merge(left, right)`
+  update _ l r := ⟨if l.v.k < r.v.k then l.v else r.v, kvZero⟩
+  modify x m := ⟨kvAdd x.v m, kvAdd x.md m⟩
+  push p l r := (⟨p.v, kvZero⟩, ⟨kvAdd l.v p.md, kvAdd l.md p.md⟩, ⟨kvAdd r.v p.md, kvAdd r.md p.md⟩)
+  dflt := ⟨d, kvZero⟩
+  op a b := if a.k < b.k then a else b
+  val x := x.v
+  pa x a := kvAdd a x.md
+  act m a := kvAdd a m
+
+/-- `MaxAdd<T>`; `Default` is `{ v: T::MIN, md: T::default() }` -/
+def maxAddKItem (d : KV) : Item KL KV KV where
+  merge l r := ⟨if l.v.k > r.v.k then l.v else r.v, kvZero⟩
+  -- the trait's default `update`: `*self = merge(left, right)`
+  update _ l r := ⟨if l.v.k > r.v.k then l.v else r.v, kvZero⟩
+  modify x m := ⟨kvAdd x.v m, kvAdd x.md m⟩
+  push p l r := (⟨p.v, kvZero⟩, ⟨kvAdd l.v p.md, kvAdd l.md p.md⟩, ⟨kvAdd r.v p.md, kvAdd r.md p.md⟩)
+  dflt := ⟨d, kvZero⟩
+  op a b := if a.k > b.k then a else b
+  val x := x.v
+  pa x a := kvAdd a x.md
+  act m a := kvAdd a m
+
+/-- `Sum<T>` over an element type whose `+` is associative but NOT commutative (harness type `Cat`: string concatenation,
+    letters as numbers): `merge` is `left.v + right.v` in this order -/
+def catSumItem : Item (List Nat) Unit (List Nat) where
+  merge l r := l ++ r
+  -- the trait's default `update`: `*self = merge(left, right)`
+  update _ l r := l ++ r
+  modify x _ := x
+  push p l r := (p, l, r)
+  dflt := []
+  op a b := a ++ b
+  val x := x
+  pa _ a := a
+  act _ a := a
+
+/-! ### IEEE binary formats: bit patterns, their order, exactly representable integers (pure integer arithmetic) -/
+
+structure FloatFmt where
+  ebits : Nat
+  mbits : Nat
+  deriving Repr, DecidableEq
+
+def f64Fmt : FloatFmt := ⟨11, 52⟩
+def f32Fmt : FloatFmt := ⟨8, 23⟩
+
+namespace FloatFmt
+/-- the sign bit as a number -/
+def signBit (f : FloatFmt) : Nat := 2 ^ (f.ebits + f.mbits)
+/-- exponent bias -/
+def bias (f : FloatFmt) : Nat := 2 ^ (f.ebits - 1) - 1
+/-- bit pattern of `+∞` -/
+def infBits (f : FloatFmt) : Nat := (2 ^ f.ebits - 1) * 2 ^ f.mbits
+/-- a bit pattern of the format that is not a NaN -/
+def valid (f : FloatFmt) (bits : Nat) : Bool := bits < 2 * f.signBit && bits % f.signBit ≤ f.infBits
+/-- Order-preserving integer image of a non-NaN bit pattern: IEEE `<` on non-NaN values is `<` on these keys, and
+    `+0.0`, `-0.0` (which compare equal) both get 0.  (Sign-magnitude: the magnitude bits of a non-negative float are
+    increasing in its value.) -/
+def ordKey (f : FloatFmt) (bits : Nat) : Int :=
+  if bits < f.signBit then (bits : Int) else -((bits - f.signBit : Nat) : Int)
+/-- the type's `MAX` (largest finite value), `MIN` (= `-MAX`), `1.0` -/
+def maxBits (f : FloatFmt) : Nat := (2 ^ f.ebits - 2) * 2 ^ f.mbits + (2 ^ f.mbits - 1)
+def minBits (f : FloatFmt) : Nat := f.signBit + f.maxBits
+def oneBits (f : FloatFmt) : Nat := f.bias * 2 ^ f.mbits
+/-- the integer `MAX` is -/
+def maxInt (f : FloatFmt) : Int := ((2 ^ (f.mbits + 1) - 1 : Nat) : Int) * ((2 ^ (f.bias - f.mbits) : Nat) : Int)
+/-- bit pattern of the integer `z` (meaningful when `z` is exactly representable: `|z| < 2^(mbits+1)`, or more
+    generally an `(mbits+1)`-bit integer times a power of two below the overflow threshold, such as `maxInt`) -/
+def ofInt (f : FloatFmt) (z : Int) : Nat :=
+  if z = 0 then 0 else
+  let a := z.natAbs
+  let e := Nat.log2 a
+  let mant := if e ≤ f.mbits then a * 2 ^ (f.mbits - e) - 2 ^ f.mbits else a / 2 ^ (e - f.mbits) - 2 ^ f.mbits
+  (if z < 0 then f.signBit else 0) + (e + f.bias) * 2 ^ f.mbits + mant
+end FloatFmt
+
 /-! ### `{:?}` renderings (what `debug()` and the harness print) -/
 
 def showOptPairI : Option (Int × Int) → String
@@ -357,6 +499,7 @@ def AffHash.dbg (x : AffHash) : String :=
 def StrCat.dbg (x : StrCat) : String := s!"StrCat \{ s: \"{letters x.s}\", md: {showOptPairN x.md} }"
 def Flip.dbg (name : String) (x : Flip) : String :=
   s!"{name} \{ ones: {x.ones}, len: {x.len}, fl: {x.fl} }"
+def KV.dbgRec (x : KV) : String := s!"{x.k}/{x.t}"
 def combDbg {T U : Type} (f : T → String) (g : U → String) (x : T × U) : String :=
   s!"Combinator({f x.1}, {g x.2})"
 
